@@ -136,7 +136,12 @@ func (g *GettyRemoting) GetMergedMessage(msgID int32) *message.MergedWarpMessage
 }
 
 func (g *GettyRemoting) NotifyRpcMessageResponse(rpcMessage message.RpcMessage) {
-	messageFuture := g.GetMessageFuture(rpcMessage.ID)
+	// the first reply takes the future out of the table, so that a duplicate of it finds none
+	// and cannot overwrite the response while the caller is reading it
+	var messageFuture *message.MessageFuture
+	if v, ok := g.futures.LoadAndDelete(rpcMessage.ID); ok {
+		messageFuture = v.(*message.MessageFuture)
+	}
 	if messageFuture != nil {
 		messageFuture.Response = rpcMessage.Body
 		// todo add messageFuture.Err
